@@ -32,6 +32,9 @@ pub enum Fault {
     MissingDir,
     IsDirectory,
     ReadOnlyFile,
+    /// the process may write files of at most 64 bytes (RLIMIT_FSIZE): the write of a longer image
+    /// is cut short and then fails, as on a disk that fills up half-way
+    FileSizeLimit,
 }
 
 #[derive(Clone, Debug, Serialize, Deserialize)]
@@ -136,6 +139,7 @@ pub fn judge_case(c: &Case) -> Obs {
         Fault::MissingDir => "fault-missing-directory",
         Fault::IsDirectory => "fault-destination-is-directory",
         Fault::ReadOnlyFile => "fault-read-only-file",
+        Fault::FileSizeLimit => "fault-file-size-limit",
     });
     if c.fail_at.is_some() || (c.back_total.is_some() && !expect_ok) {
         obs.label("assembly-fails-at-emission");
@@ -199,16 +203,16 @@ pub fn judge_case(c: &Case) -> Obs {
         _ => None,
     };
     let before: Option<Vec<u8>> = match (c.fault, c.dest, &dest_path) {
-        (Fault::None | Fault::ReadOnlyFile, Dest::ExistingExtends | Dest::ExistingPrefix | Dest::ExistingSame, Some(p)) => {
+        (Fault::None | Fault::ReadOnlyFile | Fault::FileSizeLimit, Dest::ExistingExtends | Dest::ExistingPrefix | Dest::ExistingSame, Some(p)) => {
             let bytes = related.clone().unwrap_or_default();
             std::fs::write(p, &bytes).unwrap();
             Some(bytes)
         }
-        (Fault::None | Fault::ReadOnlyFile, Dest::ExistingShort, Some(p)) => {
+        (Fault::None | Fault::ReadOnlyFile | Fault::FileSizeLimit, Dest::ExistingShort, Some(p)) => {
             std::fs::write(p, &old_short).unwrap();
             Some(old_short.clone())
         }
-        (Fault::None | Fault::ReadOnlyFile, Dest::ExistingLong, Some(p)) => {
+        (Fault::None | Fault::ReadOnlyFile | Fault::FileSizeLimit, Dest::ExistingLong, Some(p)) => {
             std::fs::write(p, &old_long).unwrap();
             Some(old_long.clone())
         }
@@ -237,7 +241,7 @@ pub fn judge_case(c: &Case) -> Obs {
     if built.stack {
         args.extend(["-f", "stack"]);
     }
-    let run = cli::lace(&args, dir.path(), &[], false, 30);
+    let run = if c.fault == Fault::FileSizeLimit { cli::lace_fsize(&args, dir.path(), &[], false, 30, Some(64)) } else { cli::lace(&args, dir.path(), &[], false, 30) };
     if run.timed_out {
         obs.excluded = Some("watchdog");
         return obs;
@@ -260,7 +264,7 @@ pub fn judge_case(c: &Case) -> Obs {
             Fault::MissingDir | Fault::IsDirectory | Fault::ReadOnlyFile => {
                 obs.set_fail("C08:success-reported-without-writing", format!("the destination cannot be written, yet compile exits 0\n{what}"));
             }
-            Fault::None => {
+            Fault::None | Fault::FileSizeLimit => {
                 if !expect_ok {
                     obs.set_fail("C08:invalid-program-compiled", format!("the source must be rejected (label out of reach)\n{what}"));
                 } else if after.as_deref() != Some(&expected_image()[..]) {
@@ -275,6 +279,7 @@ pub fn judge_case(c: &Case) -> Obs {
         // non-zero exit: the destination must be as it was
         if dest_path.is_some() && after != before {
             let sig = match (&before, &after) {
+                _ if c.fault == Fault::FileSizeLimit && after.as_ref().map(|a| expected_image().starts_with(a)).unwrap_or(false) => "C08:interrupted-write-leaves-partial-file",
                 (None, Some(_)) => "C08:failed-compile-creates-file",
                 (Some(_), Some(_)) => "C08:failed-compile-clobbers-file",
                 _ => "C08:failed-compile-removes-file",
@@ -306,7 +311,7 @@ impl Prop for C08 {
         true
     }
     fn rule(&self) -> &'static str {
-        "For each generated ProgGen program of n <= ~14 statements: the valid program and an out-of-reach label reference (BR/LD/LEA/ST/JSR in turn) placed at EVERY statement position 0..n (padding barely / comfortably / far beyond the field's reach, or placing the label exactly 32,767 / 32,768 / 32,769 words away), and a backward reference from the last to the first statement in programs of exactly 255..259 and 300 words, x destination {absent, pre-existing with known contents, pre-existing and longer than the new image, the new image followed by further words (object file of a longer version of the program), the first half of the new image, exactly the new image} x default / explicit destination; the valid program and one failing one under 20 kinds of file name (dotted stems, long, blank, leading dot, 2- and 3-byte characters up to and beyond 64 bytes at every byte-offset parity); and the destination faults {/dev/full, path in a non-existent directory, path that is a directory, read-only file}. `lace compile` is the real binary (guard off). \
+        "For each generated ProgGen program of n <= ~14 statements: the valid program and an out-of-reach label reference (BR/LD/LEA/ST/JSR in turn) placed at EVERY statement position 0..n (padding barely / comfortably / far beyond the field's reach, or placing the label exactly 32,767 / 32,768 / 32,769 words away), and a backward reference from the last to the first statement in programs of exactly 255..259 and 300 words, x destination {absent, pre-existing with known contents, pre-existing and longer than the new image, the new image followed by further words (object file of a longer version of the program), the first half of the new image, exactly the new image} x default / explicit destination; the valid program and one failing one under 20 kinds of file name (dotted stems, long, blank, leading dot, 2- and 3-byte characters up to and beyond 64 bytes at every byte-offset parity); and the destination faults {/dev/full, path in a non-existent directory, path that is a directory, read-only file, a file size limit of 64 bytes (the write is cut short and then fails, as on a disk that fills up half-way) onto absent / shorter / longer / related destinations}. `lace compile` is the real binary (guard off). \
          Oracle: exit 0 => the destination holds exactly origin ++ words of the RefAsm image (big-endian); exit != 0 => the destination's bytes / absence are exactly as before; a destination that cannot take the data must not end in exit 0. \
          Non-trivial: a failure is injected (emission position or I/O fault). Distinct = hash(source, destination state, fault). The enumerated fault set is complete per program (exhaustive over positions x destination states x listed faults); programs are sampled."
     }
@@ -369,6 +374,13 @@ impl Prop for C08 {
             for fault in [Fault::DevFull, Fault::MissingDir, Fault::IsDirectory, Fault::ReadOnlyFile] {
                 for fail_at in [None, Some(0), Some(nstmts / 2)] {
                     let case = Case { spec: spec.clone(), fail_at, back_total: None, dest: Dest::Absent, fault, default_dest: false, name: 0 , bulk: None };
+                    judge_one(ctx, rep, &case, &mut |c| judge_case(c));
+                }
+            }
+            // a write that is cut short half-way (file size limit of 64 bytes), onto every kind of destination
+            for dest in [Dest::Absent, Dest::ExistingShort, Dest::ExistingLong, Dest::ExistingExtends, Dest::ExistingSame] {
+                for fail_at in [None, Some(nstmts / 2)] {
+                    let case = Case { spec: spec.clone(), fail_at, back_total: None, dest, fault: Fault::FileSizeLimit, default_dest: dest == Dest::ExistingLong, name: 0, bulk: None };
                     judge_one(ctx, rep, &case, &mut |c| judge_case(c));
                 }
             }
